@@ -152,7 +152,7 @@ func cmdCheck(args []string) int {
 		return 2
 	}
 	cfg := &Config{Tier: *tier, QueryMs: 20000, EscalateSec: 60, Unwind: 400, MaxSteps: 3000000, MaxAlloc: 1024, ConcCap: 64,
-		Workers: *workers, KnownOpen: map[string]bool{}, Verbose: *verbose, MaxViolPerID: 2}
+		Workers: *workers, KnownOpen: map[string]bool{}, Verbose: *verbose, MaxViolPerID: 2, BudgetSec: 600}
 	if *tier == "thorough" {
 		cfg.QueryMs = 120000
 		cfg.EscalateSec = 600
@@ -160,7 +160,9 @@ func cmdCheck(args []string) int {
 		cfg.MaxAlloc = 4096
 		cfg.Unwind = 2000
 		cfg.MaxSteps = 30000000
+		cfg.BudgetSec = 7200
 	}
+	cfg.BudgetSec = envInt("VERIF_BUDGET_S", cfg.BudgetSec)
 	cfg.QueryMs = envInt("VERIF_QUERY_MS", cfg.QueryMs)
 	cfg.EscalateSec = envInt("VERIF_ESCALATE_S", cfg.EscalateSec)
 	for _, k := range known {
